@@ -624,3 +624,114 @@ func c16JSONSafe(c *Ctx, r *Result, reach *Reach) {
 		fmt.Println("DUMP typeSafe(error):", ok, why, j.errorTypesOfEvaluation())
 	}
 }
+
+// ---- R16f: results do not hand out live references to shared tables -----------------------------
+
+// A command result is read (JSON-encoded) by the console after the debugger method has returned
+// and released its lock. A map or slice inside the result that *is* one of the debugger's tables
+// (loaded from a field, not copied) is then iterated while interpreter threads write it: the Go
+// runtime aborts the process on concurrent map iteration and write.
+func liveReference(c *Ctx, v ssa.Value, d int) string {
+	if d > 12 {
+		return ""
+	}
+	v = stripConv(v)
+	switch t := v.Type().Underlying().(type) {
+	case *types.Map, *types.Slice:
+		_ = t
+	default:
+		return ""
+	}
+	switch x := v.(type) {
+	case *ssa.Phi:
+		for _, e := range x.Edges {
+			if s := liveReference(c, e, d+1); s != "" {
+				return s
+			}
+		}
+	case *ssa.UnOp:
+		if x.Op != token.MUL {
+			return ""
+		}
+		switch a := x.X.(type) {
+		case *ssa.FieldAddr:
+			if f := fieldVar(a); f != nil {
+				return "field " + typeShort(derefType(a.X.Type())) + "." + f.Name()
+			}
+		case *ssa.Alloc:
+			for _, s := range cellSources(a) {
+				if r := liveReference(c, s, d+1); r != "" {
+					return r
+				}
+			}
+		case *ssa.IndexAddr:
+			return liveReference(c, a.X, d+1)
+		}
+	case *ssa.Lookup:
+		// an element of a table that is itself a map / slice
+		if s := liveReference(c, x.X, d+1); s != "" {
+			return "an element of " + s
+		}
+	case *ssa.Extract:
+		if lk, ok := x.Tuple.(*ssa.Lookup); ok && x.Index == 0 {
+			if s := liveReference(c, lk.X, d+1); s != "" {
+				return "an element of " + s
+			}
+		}
+	case *ssa.Slice:
+		if _, ok := x.X.(*ssa.Alloc); ok {
+			return ""
+		}
+		return liveReference(c, x.X, d+1)
+	}
+	return ""
+}
+
+func c16NoLiveReferences(c *Ctx, r *Result, dbgIface *types.Interface) {
+	n := 0
+	for i := 0; i < dbgIface.NumMethods(); i++ {
+		m := dbgIface.Method(i)
+		sig := m.Type().(*types.Signature)
+		if sig.Results().Len() == 0 {
+			continue
+		}
+		for _, fn := range c.Implementations(dbgIface, m.Name()) {
+			if c.PkgOf(fn) != "interpreter" {
+				continue
+			}
+			key := c.FuncKey(fn)
+			ord := newOrdinals()
+			check := func(v ssa.Value, what string, in ssa.Instruction) {
+				n++
+				site := ord.key(key, "live-ref", what)
+				pos := c.Pos(c.InstrPos(in))
+				if s := liveReference(c, v, 0); s != "" {
+					r.Instance("R16f", site, pos, "finding", "result contains "+s+" itself", true)
+					r.Report(Finding{Rule: "R16f", Site: site, Pos: pos,
+						Msg: fmt.Sprintf("%s puts %s itself (not a copy) into its result under %q: the console encodes the result after the method returned, while interpreter threads keep writing that table — concurrent map iteration and write aborts the process, a slice is read while it is appended to", key, s, what)})
+					return
+				}
+				r.Instance("R16f", site, pos, "ok", "built for this result (copy / fresh container / scalar)", true)
+			}
+			allInstrs(fn, func(in ssa.Instruction) {
+				switch x := in.(type) {
+				case *ssa.MapUpdate:
+					if mt, ok := x.Map.Type().Underlying().(*types.Map); ok {
+						if _, isIface := mt.Elem().Underlying().(*types.Interface); isIface {
+							k := accessPath(x.Key)
+							if s, ok := constString(x.Key); ok {
+								k = s
+							}
+							check(x.Value, k, in)
+						}
+					}
+				case *ssa.Return:
+					for _, rv := range x.Results {
+						check(rv, "return", in)
+					}
+				}
+			})
+		}
+	}
+	r.Floor("R16f", n, 15)
+}
